@@ -368,16 +368,16 @@ def cases(tier, seed):
     for isa in isas(tier):
         # ---- rank 1: dynamic seq views of an owning tensor (1-D view class) --------------------------------------
         for N in range(2, 10 if not T else 13):
-            for (d, s) in pick_pairs(rng, N, 3 if not T else 24):
+            for (d, s) in pick_pairs(rng, N, 3 if not T else 12):
                 out.append(view_case('seq1d', INT, (N,), [d], [[s]], rng.choice(INT_OPS), 'v', isa, seq_txt))
-            for (d, s) in pick_pairs(rng, N, (N % 2) if not T else 6, want=OVERLAP):
+            for (d, s) in pick_pairs(rng, N, (N % 2) if not T else 3, want=OVERLAP):
                 out.append(view_case('seq1d', ftype(), (N,), [d], [[s]], rng.choice(ALL_OPS), 'v', isa, seq_txt))
         # ---- rank 1: fixed fseq views (1-D fixed view class) -----------------------------------------------------
         for N in range(3, 10 if not T else 13):
-            for (d, s) in pick_pairs(rng, N, 1 if not T else 6, want=CALM):
+            for (d, s) in pick_pairs(rng, N, 1 if not T else 4, want=CALM):
                 if not full(d, N): out.append(view_case('fseq1d', INT, (N,), [d], [[s]], rng.choice(INT_OPS), 'v', isa, fseq_txt))
             if T:
-                for (d, s) in pick_pairs(rng, N, 8, want=OVERLAP):
+                for (d, s) in pick_pairs(rng, N, 2, want=OVERLAP):
                     if not full(d, N):
                         ty = INT if rng.random() < 0.75 else ftype()
                         out.append(view_case('fseq1d', ty, (N,), [d], [[s]], rng.choice(ops_for(ty)), 'v', isa, fseq_txt))
@@ -391,15 +391,15 @@ def cases(tier, seed):
             for op in ALL_OPS:
                 for ty in ([FLT] if not T else [FLT, DBL]):
                     out.append(view_case('seq1d', ty, (N,), [d], [[s]], op, 'v', isa, seq_txt))
-        for (N, d, s) in (pats if T else pats[1:2]):           # quick: the hazard-free direction only
-            for op in ALL_OPS:
+        for (N, d, s) in (pats[:2] if T else pats[1:2]):           # quick: the hazard-free direction only
+            for op in (ALL_OPS if not T else ['=', '+=', '*=']):
                 out.append(view_case('fseq1d', FLT, (N,), [d], [[s]], op, 'v', isa, fseq_txt))
         # right-hand sides that are expressions of one or two overlapping views
         for N in ((8, 9) if not T else range(3, 12)):
             for rhs in ('sum2', 'diff2', 'v+v', 'neg'):
                 for vk, vtxt in (('seq1d', seq_txt), ('fseq1d', fseq_txt)):
-                    if vk == 'fseq1d' and not T and not (N == 8 and rhs == 'sum2'): continue
-                    for (d, s) in pick_pairs(rng, N, 1 if not T else 3, want=OVERLAP):
+                    if vk == 'fseq1d' and not (N == 8 and rhs == 'sum2') and not (T and N % 3 == 0 and rhs in ('sum2', 'v+v')): continue
+                    for (d, s) in pick_pairs(rng, N, 1 if (not T or vk == 'fseq1d') else 2, want=OVERLAP):
                         if vk == 'fseq1d' and full(d, N): continue
                         srcs = [[s]]
                         if RHS[rhs][2] == 2:
@@ -408,31 +408,39 @@ def cases(tier, seed):
                         out.append(view_case(vk + '-expr', ty, (N,), [d], srcs, rng.choice(ops_for(ty)), rhs, isa, vtxt))
         # destination seq / source fseq and the other way round
         for N in ((6, 9) if not T else range(4, 11)):
-            for (d, s) in pick_pairs(rng, N, 1 if not T else 4, want=OVERLAP):
+            for (d, s) in pick_pairs(rng, N, 1 if not T else 2, want=OVERLAP):
                 if full(s, N) or full(d, N): continue
                 out.append(view_case('seq-from-fseq', INT, (N,), [d], [[s]], rng.choice(INT_OPS), 'v', isa, seq_txt, srctxt=fseq_txt))
-                if T or (N == 9 and isa != 'avx2'): out.append(view_case('fseq-from-seq', INT, (N,), [d], [[s]], rng.choice(INT_OPS), 'v', isa, fseq_txt, srctxt=seq_txt))
+                if (T and N % 2) or (N == 9 and isa != 'avx2'): out.append(view_case('fseq-from-seq', INT, (N,), [d], [[s]], rng.choice(INT_OPS), 'v', isa, fseq_txt, srctxt=seq_txt))
         # FASTOR_USE_VECTORISED_EXPR_ASSIGN (strided vector paths)
         for N in ((9,) if not T else (5, 9, 12)):
-            for (d, s) in pick_pairs(rng, N, 3 if not T else 8, want=OVERLAP):
+            for (d, s) in pick_pairs(rng, N, 3 if not T else 6, want=OVERLAP):
                 out.append(view_case('seq1d', INT, (N,), [d], [[s]], rng.choice(INT_OPS), 'v', isa, seq_txt, macros=('FASTOR_USE_VECTORISED_EXPR_ASSIGN',)))
+        # ---- C++17 (if-constexpr branches of the view classes) ---------------------------------------------------------
+        for N in ((9,) if not T else (4, 7, 9, 12)):
+            for (d, s) in pick_pairs(rng, N, 2 if not T else 3, want=OVERLAP):
+                out.append(view_case('seq1d', INT, (N,), [d], [[s]], rng.choice(INT_OPS), 'v', isa, seq_txt, std='c++17'))
+        for (dst, src) in pick_pairs_nd(rng, (3, 5), 2 if not T else 5):
+            out.append(view_case('seq2d', INT, (3, 5), dst, [src], rng.choice(INT_OPS), 'v', isa, seq_txt, std='c++17'))
+        for (dst, src) in pick_pairs_nd(rng, (2, 3, 4), 1 if not T else 3, neg=False):
+            out.append(view_case('fseqnd', INT, (2, 3, 4), dst, [src], rng.choice(INT_OPS), 'v', isa, fseq_txt, std='c++17'))
         # ---- rank 2 -----------------------------------------------------------------------------------------------
         shapes2 = [(2, 3), (3, 4), (4, 5), (3, 9)] if not T else [(2, 2), (2, 3), (3, 3), (3, 4), (4, 4), (4, 5), (5, 4), (3, 9), (2, 17), (5, 6)]
         for shape in shapes2:
-            for (dst, src) in pick_pairs_nd(rng, shape, 3 if not T else 16):
+            for (dst, src) in pick_pairs_nd(rng, shape, 3 if not T else 10):
                 ty = INT if rng.random() < 0.75 else ftype()
                 out.append(view_case('seq2d', ty, shape, dst, [src], rng.choice(ops_for(ty)), rhs1(ty), isa, seq_txt))
-            for (dst, src) in pick_pairs_nd(rng, shape, 1 if not T else 10):
+            for (dst, src) in pick_pairs_nd(rng, shape, 1 if not T else 2):
                 if all(full(d, N) for d, N in zip(dst, shape)): continue
                 ty = INT if rng.random() < 0.75 else ftype()
                 out.append(view_case('fseq2d', ty, shape, dst, [src], rng.choice(ops_for(ty)), rhs1(ty), isa, fseq_txt))
         for op in ALL_OPS:     # the test-suite pattern a(all,seq(2,5)) op= a(all,seq(0,3)) on 3x5
             out.append(view_case('seq2d', FLT, (3, 5), [(0, 3, 1), (2, 5, 1)], [[(0, 3, 1), (0, 3, 1)]], op, 'v', isa, seq_txt))
-            if T or op == '+=': out.append(view_case('fseq2d', FLT, (3, 5), [(0, 3, 1), (2, 5, 1)], [[(0, 3, 1), (0, 3, 1)]], op, 'v', isa, fseq_txt))
+            if op == '+=' or (T and op == '='): out.append(view_case('fseq2d', FLT, (3, 5), [(0, 3, 1), (2, 5, 1)], [[(0, 3, 1), (0, 3, 1)]], op, 'v', isa, fseq_txt))
         # ---- rank 3: generic n-dimensional seq views (owning tensor and TensorMap), n-dimensional fixed views ---
         for shape in ([(2, 3, 4)] if not T else [(2, 3, 4), (3, 2, 5), (2, 2, 9)]):
             for vk, vtxt, parent in (('seqnd', seq_txt, 'own'), ('fseqnd', fseq_txt, 'own'), ('seqnd-map', seq_txt, 'map')):
-                for (dst, src) in pick_pairs_nd(rng, shape, 2 if not T else 10, neg=False):
+                for (dst, src) in pick_pairs_nd(rng, shape, 2 if not T else 6, neg=False):
                     if vk == 'fseqnd' and all(full(d, N) for d, N in zip(dst, shape)): continue
                     op = rng.choice(INT_OPS if parent == 'own' else ['+=', '-='])     # TensorMap: view = view does not compile
                     out.append(view_case(vk, INT, shape, dst, [src], op, 'v', isa, vtxt, parent=parent))
@@ -440,7 +448,7 @@ def cases(tier, seed):
         for N in ((5, 9) if not T else range(2, 12)):
             for vk, vtxt in (('seq1d', seq_txt), ('fseq1d', fseq_txt)):
                 rs = [r for r in all_ranges(N) if rsize(*r) >= 2 and not (vk == 'fseq1d' and full(r, N))]
-                for r in sample(rng, rs, 2 if not T else 5):
+                for r in sample(rng, rs, 2 if not T else 3):
                     ty = INT if rng.random() < 0.7 else ftype()
                     out.append(view_case(vk + '-coincide', ty, (N,), [r], [[r]], rng.choice(ops_for(ty)), rhs1(ty), isa, vtxt, noalias=False))
         for shape in ([(3, 5)] if not T else [(2, 3), (3, 5), (4, 4)]):
@@ -454,8 +462,8 @@ def cases(tier, seed):
         for N in ((6, 9) if not T else range(4, 11)):
             for kind in ('remark', 'consumed', 'other'):
                 for vtxt in (seq_txt, fseq_txt):
-                    if vtxt is fseq_txt and not T and not (N == 9 and kind == 'remark'): continue
-                    for (d, s) in pick_pairs(rng, N, 1 if not T else 3, want=OVERLAP):
+                    if vtxt is fseq_txt and not (N == 9 and kind == 'remark') and not (T and N % 3 == 0): continue
+                    for (d, s) in pick_pairs(rng, N, 1 if (not T or vtxt is fseq_txt) else 2, want=OVERLAP):
                         if vtxt is fseq_txt and full(d, N): continue
                         ty = INT if rng.random() < 0.75 else ftype()
                         out.append(twice_case(ty, N, d, s, rng.choice(ops_for(ty)), rng.choice(ops_for(ty)), kind, isa, vtxt))
@@ -469,17 +477,17 @@ def cases(tier, seed):
                 out.append(itview_case(INT, shape, ishape, op, 'v', isa))
             if not big:
                 ty = ftype()
-                for op in (ALL_OPS if T else sample(rng, ALL_OPS, 1)):
+                for op in sample(rng, ALL_OPS, 1 if not T else 2):
                     out.append(itview_case(ty, shape, ishape, op, 'v', isa))
                 out.append(itview_case(INT, shape, ishape, rng.choice(INT_OPS), 'v', isa, ity=rng.choice([I64, U64])))
             out.append(itview_case(INT, shape, ishape, rng.choice(INT_OPS), rng.choice(['v', 'v+v']), isa, srckind='self', noalias=False))
             if len(shape) == 1:
                 N = shape[0]; K = ishape[0]
                 rs = [r for r in all_ranges(N) if rsize(*r) == K]
-                for r in sample(rng, rs, 1 if not T else 4):
+                for r in sample(rng, rs, 1 if not T else 3):
                     out.append(itview_case(INT, shape, ishape, rng.choice(INT_OPS), 'v', isa, srckind='seq', src_range=r))
                     out.append(seq_from_it_case(INT, N, r, rng.choice(INT_OPS), isa, ity=rng.choice([INT, INT, I64, U64])))
-                if T or (N == 6 and isa == 'avx2'):
+                if (T and N in (4, 6)) or (N == 6 and isa == 'avx2'):
                     r = rng.choice(rs)
                     if K < N: out.append(seq_from_it_case(INT, N, r, rng.choice(INT_OPS), isa, fixed=True))
         # ---- destination = whole tensor spelled as a view ---------------------------------------------------------
@@ -489,14 +497,13 @@ def cases(tier, seed):
             out.append(whole_from_it_case(INT, (4,), rng.choice(INT_OPS), isa, rng.choice(['seq', 'seqlast'])))
         else:
             for shape in [(3,), (5,), (2, 3)]:
-                for sp in ('fall', 'all', 'fseq') + (('seq', 'seqlast') if shape == (3,) else ()):
-                    for op in INT_OPS:
-                        out.append(whole_from_it_case(INT, shape, op, isa, sp))
+                for sp in (('fall', 'all', 'fseq') if shape != (3,) else ('seq', 'seqlast')):
+                    out.append(whole_from_it_case(INT, shape, rng.choice(INT_OPS if shape == (3,) else ['+=', '-=']), isa, sp))
         # ---- mask views -----------------------------------------------------------------------------------------------
         for shape in ([(5,), (2, 3)] if not T else [(3,), (5,), (9,), (12,), (2, 3), (3, 4), (2, 2, 3)]):
-            for op in (INT_OPS if T else [rng.choice(INT_OPS)]):
+            for op in [rng.choice(INT_OPS)]:
                 if T or (shape == (5,)) == (isa != 'avx2'): out.append(mask_case(INT, shape, op, 'v', isa, 'it'))
-            if T: out.append(mask_case(ftype(), shape, rng.choice(ALL_OPS), 'v', isa, 'it'))
+            if T and prod(shape) in (5, 6): out.append(mask_case(ftype(), shape, rng.choice(ALL_OPS), 'v', isa, 'it'))
             out.append(mask_case(INT, shape, rng.choice(INT_OPS), rng.choice(['v', 'v+v']), isa, 'self', noalias=False))
             out.append(mask_case(INT, shape, rng.choice(INT_OPS), rng.choice(['v', 'v+v']), isa, 'whole', noalias=False))
             out.append(mask_case(INT, shape, rng.choice(INT_OPS), 'v', isa, 'whole', noalias=True))
@@ -506,3 +513,22 @@ def cases(tier, seed):
     for c in out:
         if c.cid not in seen: seen.add(c.cid); res.append(c)
     return res
+
+def evidence_extra(tier):
+    T = tier == 'thorough'
+    return {'box': {
+        'rank1': 'extents 2..%d; pairs of equal-length (first,last,step) ranges with |step| <= 3, both spellings of `last`, negative steps (reversed order) where `last` >= 0; stratified sample over {same, permuted, partial, disjoint} x {forward, reversed, strided, mixed strides}' % (12 if T else 9),
+        'rank2': 'shapes up to %s; per-axis range pairs, |step| <= 2' % ('5x6, 2x17' if T else '4x5, 3x9'),
+        'rank3': '2x3x4%s (generic n-dimensional seq views on Tensor and on TensorMap, n-dimensional fixed views)' % (', 3x2x5, 2x2x9' if T else ''),
+        'view_kinds': ['seq (dynamic; run-time values, enumerated)', 'fseq (compile-time)', 'seq<->fseq mixed', 'index tensor (symbolic, duplicate-free destination; symbolic source)', 'boolean mask (symbolic: all 2^n masks)', 'whole tensor spelled fall / all / fseq<0,N> / seq(0,N) / seq(first,last)'],
+        'operators': '= += -= on int (SYM); = += -= *= /= on float, double (UF, pipeline P0)',
+        'rhs_forms': ['A(r2)', '-A(r2) (float only)', 'A(r2)+A(r3)', 'A(r2)-A(r3)', 'A(r2)+A(r2)'],
+        'histories': ['same view object: re-marked before each of two assignments', 'flag consumed, then coinciding source', 'flag consumed, then unrelated source'],
+        'no_noalias_coinciding': 'A(r) op= g(A(r)) for seq, fseq, index-tensor and mask views',
+        'macros': ['FASTOR_USE_VECTORISED_EXPR_ASSIGN (rank-1 strided)'],
+        'index_view_sizes': 'destination index tensors of 2 indices (all operators) / 3 indices (= only) into parents of <= %d elements' % (8 if T else 6),
+    },
+    'not_covered': ['dynamic seq views of rank-1 / rank-2 TensorMap with noalias() or any compound assignment: do not compile (tensor_views_nd.h constructs the 1-D/2-D view class with the n-D constructor signature)',
+                    'integer unary minus on the right-hand side (SIMD integer negation is wrong by itself: property C02/C08)',
+                    'int *= and /= (symbolic 32-bit multiplication / division is not tractable in mode SYM)',
+                    'reversed ranges that include element 0 (not expressible: a negative `last` means counted from the end)']}
